@@ -1488,6 +1488,12 @@ class Model(Object):
             for reaction in existing:
                 reaction.id = f"{prefix_existing}{reaction.id}"
         new_model.add_reactions(new_reactions)
+        # Copies that were ignored (their identifier already exists) must not
+        # stay referenced by metabolites that did enter the merged model.
+        for reaction in new_reactions:
+            if reaction.model is not new_model:
+                for met in reaction.metabolites:
+                    met._reaction.discard(reaction)
         interface = new_model.problem
         # Variables and constraints that encode the reactions and metabolites of
         # `right` are not custom ones: they were added above together with the
